@@ -486,7 +486,14 @@ def r4(ctx, r):
     if ok:
         gate = [b for b in hf.blocks.values() if b.cond is not None and "closeSent" in show(b.cond)]
         snd = [e for e in hf.stmts() if e.node.get("k") == "mcall" and last(e.node.get("callee", "")) == "sendRaw" and search(hf, sets[0], lambda x, e=e: x is e, stop=lambda x: not la.holds(hf, x, WSM), eh=False) is not None]
-        ok = len(gate) == 1 and len(snd) == 1 and dominated_by_edge(hf, sets[0], gate[0], 0, eh=False) and any(x.get("k") == "un" and x.get("op") == "!" and "closeSent" in show(x["v"]) for x in walk(gate[0].cond))
+        ok = len(gate) == 1 and len(snd) == 1
+        if ok:
+            gc, gst, gsf = common.branch(gate[0])
+            if gc is not None and gc.get("k") != "bin" and gsf is not None and gst != gsf:
+                # a plain test of the flag: the set + send sit on its `not yet sent` side
+                ok = dominated_by_edge(hf, sets[0], gate[0], gate[0].succs.index(gsf), eh=False)
+            else:
+                ok = dominated_by_edge(hf, sets[0], gate[0], 0, eh=False) and any(x.get("k") == "un" and x.get("op") == "!" and "closeSent" in show(x["v"]) for x in walk(gate[0].cond))
     r.expect(ok, hf, sets[0] if sets else None, "close echo", "the inbound-CLOSE echo does not set closeSent and send the echo inside one _wsMutex section guarded by !closeSent (a second CLOSE would be echoed again / a data frame could slip in between)",
              okdesc="CLOSE echo: !closeSent → set + send, one section")
     sc = fnc(ctx, WS, "sendClose", WSF)
@@ -678,8 +685,8 @@ def r5(ctx, r):
                 why = "the validated frame `%s` %s" % (recv["n"], "is the frame just received (the last fragment), not the reassembled message `%s`" % src if recv.get("parm") is not None else "does not hold the reassembled message `%s`" % src)
             if ok:
                 vb = val[0].block
-                c = strip_casts(vb.cond) if vb.cond is not None else None
-                ok = c is not None and c.get("k") == "un" and c.get("op") == "!" and dominated_by_edge(hd, cb, vb, 1, eh=False)
+                c, vst, vsf = common.branch(vb) if vb.cond is not None else (None, None, None)
+                ok = c is not None and c is val[0].node and vst is not None and vst != vsf and dominated_by_edge(hd, cb, vb, vb.succs.index(vst), eh=False)
                 why = "the callback is not behind the validation"
         r.expect(ok, hd, val[0] if val else cb, "%s text not validated" % label, "the %s delivers TEXT messages to the application without isValidUtf8() having accepted the reassembled message (%s): delivery then depends on where the sender "
                  "cut the fragments (a character split across fragments is rejected; invalid bytes in an earlier fragment are delivered)" % (label, why), okdesc="%s: isValidUtf8(reassembled message) before onTextMessage" % label)
@@ -708,8 +715,9 @@ def r6(ctx, r):
             others = [e for e in f.stmts() if (asg(e.node) and key_of(asg(e.node)[0]) == "offset") or (e.node.get("k") == "un" and key_of(e.node.get("v") or {}) == "offset")]
             ok = not others
             # loop exits when parse returns nullopt
-            fb_ = [b for b in f.blocks.values() if b.cond is not None and show(strip_casts(b.cond)).replace("(bool)", "") in ("!frame", "!frame.has_value()", "!frame.operator bool()")]
-            ok = ok and len(fb_) == 1 and search(f, ("block", fb_[0].succs[0]), lambda x: x is ps[0], eh=False) is None
+            fb_ = [b for b in f.blocks.values() if b.cond is not None and show(common.branch(b)[0] or {}).replace("(bool)", "") in ("frame", "frame.has_value()", "frame.operator bool()")]
+            # (the side on which there is no frame never comes back to parse)
+            ok = ok and len(fb_) == 1 and common.branch(fb_[0])[2] is not None and search(f, ("block", common.branch(fb_[0])[2]), lambda x: x is ps[0], eh=False) is None
             # the view starts at offset with the remaining size
             vw = [v for e in f.stmts() if e.node.get("k") == "decl" for v in e.node["vars"] if v["n"] == "view"]
             ok = ok and len(vw) == 1 and "localBuffer.data() + offset" in show(vw[0]["init"]) and "localBuffer.size() - offset" in show(vw[0]["init"])
